@@ -57,6 +57,8 @@ def userauth_request(username, service, method, **kw):
     elif method == "keyboard-interactive":
         m.add_string("")
         m.add_string("")
+    elif method == "gssapi-keyex":
+        m.add_string(kw.get("mic", b"MIC"))
     return m.asbytes()
 
 
